@@ -289,7 +289,8 @@ Tick ==
 
 -----------------------------------------------------------------------------
 Ops     == {"=", "!=", "<", "<=", ">", ">="}
-Next ==
+\* steps that concern ONE collection of the database (SodMulti interleaves two collections on them) ...
+CollNext ==
   \/ Load
   \/ \E u \in Slots, o \in Objects : Put(u, o)
   \/ \E b \in Batches : BatchFilter(b) /\ PutMany(b)
@@ -297,11 +298,16 @@ Next ==
   \/ DelAll
   \/ \E op \in Ops, p \in AVals : DelSearch("A", op, p) \/ Eval("A", op, p)
   \/ Collect
-  \/ \E c \in BOOLEAN : Reopen(c) \/ Abandon(c) \/ FlushAll(c)
+  \/ \E c \in BOOLEAN : FlushAll(c)
   \/ \E u \in Slots, c \in BOOLEAN : FlushOne(u, c)
-  \/ \E c \in Cfgs : DropCreate(c)
   \/ \E c \in Cfgs : Switch(c)
-  \/ FlusherPoll \/ Tick
+  \/ FlusherPoll
+\* ... and steps of the whole database: Close / abandon + new handle, Drop, the clock
+Next ==
+  \/ CollNext
+  \/ \E c \in BOOLEAN : Reopen(c) \/ Abandon(c)
+  \/ \E c \in Cfgs : DropCreate(c)
+  \/ Tick
 
 Spec     == Init /\ [][Next]_vars
 FairSpec == Spec /\ WF_vars(FlusherPoll) /\ WF_vars(Tick)
